@@ -120,6 +120,12 @@ func c02ArgList(a, v int) []interface{} {
 		return []interface{}{structT{7, secStr[v], secPlain[v]}, map[string]int{secKeyA[v]: 1}, panStrT{"pb " + secPlain[v]}}
 	case 6:
 		return []interface{}{redact.Safe("pub"), secPlain[v], safeFmtT{"k", secStr[v]}}
+	case 100:
+		return []interface{}{4, 5, secPlain[v]}
+	case 101:
+		return []interface{}{secPlain[v], 2, secF[v]}
+	case 102:
+		return []interface{}{7}
 	}
 	return nil
 }
@@ -213,6 +219,17 @@ func checkC02(c *Ctx) {
 			}
 		}
 	})
+	ifs := indexedFormats(c.Quick())
+	c.Section("C02/indexed", map[string]interface{}{"formats": len(ifs), "arg_lists": 3}, len(ifs), func(i int, w *Worker) {
+		for a := 100; a < 103; a++ {
+			a := a
+			w.Eval()
+			if dt := c02Run(ifs[i], func(v int) []interface{} { return c02ArgList(a, v) }, w.SeenS); dt != "" {
+				w.Fail("indexed", map[string]interface{}{"F": []byte(ifs[i]), "A": a, "quoted": q(ifs[i])}, dt)
+			}
+		}
+	})
+	replayers["C02/indexed"] = replayers["C02/programs"]
 	md := midDirectives()
 	pv := c02PairVals()
 	nd := md.Size()
